@@ -280,8 +280,6 @@ def execute(sc, sim):
     if outs != sorted(expect_files):
         return done(sc, st, [cm.viol("C17/file-set", expected=expect_files, got=outs,
                                      spec=sc["spec"])])
-    if obs.get("unclosed_at_return"):
-        return done(sc, st, [cm.viol("C17/part-left-open", files=obs["unclosed_at_return"])])
     # ---- each part: a complete document of the format, sizes, content
     fmt = sc["dest_fmt"]
     step = {"src_fmt": sc["src_fmt"], "dest_fmt": fmt, "dest_enc": denc, "dopts": sc["dopts"],
